@@ -45,13 +45,13 @@ func poke(c chan struct{}) {
 
 // SimConn is one end of a simulated stream; it implements net.Conn.
 type SimConn struct {
-	in, out       *halfPipe
-	laddr, raddr  net.Addr
-	closed        chan struct{}
-	once          sync.Once
-	peer          *SimConn
-	CloseCount    int
-	WriteErr      error // injected: every Write fails with it
+	in, out      *halfPipe
+	laddr, raddr net.Addr
+	closed       chan struct{}
+	once         sync.Once
+	peer         *SimConn
+	CloseCount   int
+	WriteErr     error // injected: every Write fails with it
 }
 
 // NewStream creates a connected pair of simulated stream ends.
@@ -64,7 +64,9 @@ func NewStream(e *Env, aAddr, bAddr *net.TCPAddr) (*SimConn, *SimConn) {
 	return a, b
 }
 
-func TCPAddr(ip string, port int) *net.TCPAddr { return &net.TCPAddr{IP: net.ParseIP(ip).To4(), Port: port} }
+func TCPAddr(ip string, port int) *net.TCPAddr {
+	return &net.TCPAddr{IP: net.ParseIP(ip).To4(), Port: port}
+}
 
 func (c *SimConn) isClosed() bool {
 	select {
@@ -152,8 +154,8 @@ func (c *SimConn) Close() error {
 	return nil
 }
 
-func (c *SimConn) LocalAddr() net.Addr                { return c.laddr }
-func (c *SimConn) RemoteAddr() net.Addr               { return c.raddr }
+func (c *SimConn) LocalAddr() net.Addr              { return c.laddr }
+func (c *SimConn) RemoteAddr() net.Addr             { return c.raddr }
 func (c *SimConn) SetDeadline(time.Time) error      { return nil }
 func (c *SimConn) SetReadDeadline(time.Time) error  { return nil }
 func (c *SimConn) SetWriteDeadline(time.Time) error { return nil }
@@ -234,17 +236,17 @@ func (c *SimTLSConn) HandshakeContext(ctx context.Context) error {
 // ---------------------------------------------------------------- TCP endpoint: real tcp.Client over the simulated stream
 
 type TCPEndpoint struct {
-	Env    *Env
-	Conn   *SimConn
-	CC     *tcpClient.Conn
-	mu     sync.Mutex
-	Errs   []string
-	ticks  []func(now time.Time) bool
+	Env   *Env
+	Conn  *SimConn
+	CC    *tcpClient.Conn
+	mu    sync.Mutex
+	Errs  []string
+	ticks []func(now time.Time) bool
 }
 
 type TCPEndpointCfg struct {
-	Opts   []tcp.Option
-	TLS    bool
+	Opts      []tcp.Option
+	TLS       bool
 	Handshake func(ctx context.Context) error
 }
 
@@ -302,3 +304,115 @@ func (ep *TCPEndpoint) Errors() []string {
 }
 
 var _ = errors.New
+
+// ---------------------------------------------------------------- datagram-preserving net.Conn (ideal DTLS record layer shim)
+
+// SimPacketConn is a net.Conn whose Write sends one record and whose Read returns one record.
+type SimPacketConn struct {
+	mu           sync.Mutex
+	in           [][]byte // released to the reader
+	Out          [][]byte // written by the endpoint, consumed by the scripted peer
+	rwake        chan struct{}
+	closed       chan struct{}
+	once         sync.Once
+	laddr, raddr net.Addr
+	Handshake    func(ctx context.Context) error
+	WriteErr     error
+	reset        bool
+}
+
+func NewPacketConn(e *Env, l, r *net.UDPAddr) *SimPacketConn {
+	e.Stub("pion/dtls record layer (ideal datagram-preserving shim with scripted handshake)")
+	return &SimPacketConn{rwake: make(chan struct{}, 1), closed: make(chan struct{}), laddr: l, raddr: r}
+}
+
+func (c *SimPacketConn) HandshakeContext(ctx context.Context) error {
+	if c.Handshake == nil {
+		return nil
+	}
+	return c.Handshake(ctx)
+}
+
+func (c *SimPacketConn) Read(b []byte) (int, error) {
+	for {
+		select {
+		case <-c.closed:
+			return 0, net.ErrClosed
+		default:
+		}
+		c.mu.Lock()
+		if c.reset {
+			c.mu.Unlock()
+			return 0, &net.OpError{Op: "read", Net: "udp", Err: syscall.ECONNRESET}
+		}
+		if len(c.in) > 0 {
+			r := c.in[0]
+			c.in = c.in[1:]
+			c.mu.Unlock()
+			return copy(b, r), nil
+		}
+		c.mu.Unlock()
+		select {
+		case <-c.rwake:
+		case <-c.closed:
+		}
+	}
+}
+
+func (c *SimPacketConn) Write(b []byte) (int, error) {
+	select {
+	case <-c.closed:
+		return 0, net.ErrClosed
+	default:
+	}
+	if c.WriteErr != nil {
+		return 0, c.WriteErr
+	}
+	c.mu.Lock()
+	c.Out = append(c.Out, append([]byte(nil), b...))
+	c.mu.Unlock()
+	return len(b), nil
+}
+
+func (c *SimPacketConn) Close() error {
+	c.once.Do(func() { close(c.closed) })
+	return nil
+}
+func (c *SimPacketConn) IsClosed() bool {
+	select {
+	case <-c.closed:
+		return true
+	default:
+		return false
+	}
+}
+func (c *SimPacketConn) LocalAddr() net.Addr              { return c.laddr }
+func (c *SimPacketConn) RemoteAddr() net.Addr             { return c.raddr }
+func (c *SimPacketConn) SetDeadline(time.Time) error      { return nil }
+func (c *SimPacketConn) SetReadDeadline(time.Time) error  { return nil }
+func (c *SimPacketConn) SetWriteDeadline(time.Time) error { return nil }
+
+// Deliver hands one record to the reader.
+func (c *SimPacketConn) Deliver(b []byte) {
+	c.mu.Lock()
+	c.in = append(c.in, append([]byte(nil), b...))
+	c.mu.Unlock()
+	poke(c.rwake)
+}
+
+// TakeOut removes and returns the records written by the endpoint.
+func (c *SimPacketConn) TakeOut() [][]byte {
+	c.mu.Lock()
+	o := c.Out
+	c.Out = nil
+	c.mu.Unlock()
+	return o
+}
+
+// ResetConn makes reads fail with ECONNRESET.
+func (c *SimPacketConn) ResetConn() {
+	c.mu.Lock()
+	c.reset = true
+	c.mu.Unlock()
+	poke(c.rwake)
+}
